@@ -540,5 +540,69 @@ pub fn corr(seed: u64, n: u64) {
         stats.case(&line, !kind.starts_with("generic"));
         println!("{}", line);
     }
+    corr_selfint(seed, n / 8 + 40, &mut stats);
     stats.print("C20", "corr");
 }
+
+/// `find_self_intersection_point` (self_intersection.rs): the terminal pair of halves the recursion reaches, found here with the
+/// public API only (the model walks the same recursion with the generated code and must arrive at the same two sections)
+fn selfint_terminal<'a>(c: &'a Curve<Coord2>) -> Option<(CurveSection<'a, Curve<Coord2>>, CurveSection<'a, Curve<Coord2>>)> {
+    if c.characteristics() != CurveCategory::Loop { return None; }
+    let mut s = c.section(0.0, 1.0);
+    for _ in 0..4000 {
+        let (l, r) = (s.subsection(0.0, 0.5), s.subsection(0.5, 1.0));
+        match (l.characteristics() == CurveCategory::Loop, r.characteristics() == CurveCategory::Loop) {
+            (true, true) => return None,
+            (true, false) => { s = l; }
+            (false, true) => { s = r; }
+            (false, false) => return Some((l, r)),
+        }
+    }
+    None
+}
+
+/// curves for the self-intersection lines: loops of several shapes (crossing control polygon), closed curves, nearly
+/// symmetric loops, and curves of the other categories
+fn selfint_curve(rng: &mut Rng) -> (Cub, &'static str) {
+    match rng.i(8) {
+        0 | 1 => ([Coord2(rng.r(0.0, 30.0), rng.r(0.0, 20.0)), Coord2(rng.r(80.0, 140.0), rng.r(60.0, 120.0)), Coord2(rng.r(-60.0, 10.0), rng.r(60.0, 120.0)), Coord2(rng.r(50.0, 100.0), rng.r(0.0, 20.0))], "loop"),
+        2 => { let (a, b, h) = (rng.r(5.0, 30.0), rng.r(60.0, 120.0), rng.r(40.0, 100.0)); let e = rng.r(-1e-3, 1e-3);
+               ([Coord2(-a, 0.0), Coord2(b, h), Coord2(-b + e, h), Coord2(a, 0.0)], "nearly_symmetric_loop") }
+        3 => { let p0 = Coord2(rng.r(0.0, 100.0), rng.r(0.0, 100.0)); ([p0, Coord2(rng.r(0.0, 100.0), rng.r(0.0, 100.0)), Coord2(rng.r(0.0, 100.0), rng.r(0.0, 100.0)), p0], "closed") }
+        4 => { let s = rng.r(0.3, 0.7); // a small loop near one end: the recursion descends several levels
+               let q = [Coord2(0.0, 0.0), Coord2(120.0, 90.0), Coord2(-30.0, 90.0), Coord2(90.0, 0.0)];
+               let c = lib_curve(&q); let (l, _): (Curve<Coord2>, Curve<Coord2>) = c.subdivide(s + 0.3); (cub_of(&l), "loop_near_end") }
+        5 => { let q = [Coord2(0.0, 0.0), Coord2(120.0, 90.0), Coord2(-30.0, 90.0), Coord2(90.0, 0.0)];
+               let c = lib_curve(&q); let (_, r): (Curve<Coord2>, Curve<Coord2>) = c.subdivide(rng.r(0.02, 0.2)); (cub_of(&r), "loop_near_start") }
+        _ => ([Coord2(rng.r(0.0, 100.0), rng.r(0.0, 100.0)), Coord2(rng.r(0.0, 100.0), rng.r(0.0, 100.0)), Coord2(rng.r(0.0, 100.0), rng.r(0.0, 100.0)), Coord2(rng.r(0.0, 100.0), rng.r(0.0, 100.0))], "generic"),
+    }
+}
+
+/// lines `C20 selfint R w(8) accuracy la lb ra rb #k (u1 u2)* | #flag t1 t2` (flag 0: None, 1: Some, 2: panic)
+pub fn corr_selfint(seed: u64, n: u64, stats: &mut Stats) {
+    let mut rng = Rng(seed ^ 0xC205E1F);
+    for _ in 0..n {
+        let (w, kind) = selfint_curve(&mut rng);
+        let c = lib_curve(&w);
+        let accuracy = [0.01, 0.1, 1e-4][rng.i(3) as usize];
+        let term = selfint_terminal(&c);
+        let (tv, pairs) = match &term {
+            Some((l, r)) => {
+                let pairs = std::panic::catch_unwind(std::panic::AssertUnwindSafe(|| curve_intersects_curve_clip(l, r, accuracy))).unwrap_or_default();
+                let (la, lb) = l.original_curve_t_values(); let (ra, rb) = r.original_curve_t_values();
+                ([la, lb, ra, rb], pairs.into_iter().collect::<Vec<_>>())
+            }
+            None => ([0.0; 4], vec![]),
+        };
+        let res = std::panic::catch_unwind(std::panic::AssertUnwindSafe(|| find_self_intersection_point(&c, accuracy)));
+        let out = match res { Err(_) => format!("#2 {} {}", hx(0.0), hx(0.0)), Ok(None) => format!("#0 {} {}", hx(0.0), hx(0.0)), Ok(Some((a, b))) => format!("#1 {} {}", hx(a), hx(b)) };
+        stats.count(&format!("selfint.{}.{}.{}", kind, format!("{:?}", c.characteristics()).to_lowercase(),
+            match &res { Err(_) => "panic".to_string(), Ok(None) => "none".to_string(), Ok(Some(_)) => format!("some.{}_clip_pairs", pairs.len().min(3)) }));
+        let mut line = format!("C20 selfint R {} {} {} #{}", hxw(&w), hx(accuracy), hxs(&tv), pairs.len());
+        for (a, b) in &pairs { line += &format!(" {} {}", hx(*a), hx(*b)); }
+        line += &format!(" | {}", out);
+        stats.case(&line, kind != "generic");
+        println!("{}", line);
+    }
+}
+
